@@ -3,15 +3,18 @@
   (`nullableUnionPanic`, `lpUnknownKeyPanic`) - in particular for `Engine.ideal`.
 -/
 import IpldModel.Model.Schema
+import IpldModel.Lemmas.SchemaGenFlags
 namespace Ipld
 namespace Schema
 
-/-- An engine without the two quirks that make a builder panic. -/
+/-- An engine without the quirks that make a builder panic: the two panic quirks of the reflection binding,
+    and `assignNodeSkipsBegin` of generated code where it can act (driving mode `viaNode`). -/
 structure Engine.NoPanicFlags (e : Engine) : Prop where
   nup : e.nullableUnionPanic = false
   lpk : e.lpUnknownKeyPanic = false
+  node : (e.viaNode && e.assignNodeSkipsBegin) = false
 
-theorem Engine.ideal_noPanicFlags : Engine.ideal.NoPanicFlags := ⟨rfl, rfl⟩
+theorem Engine.ideal_noPanicFlags : Engine.ideal.NoPanicFlags := ⟨rfl, rfl, rfl⟩
 
 theorem Outcome.map_ne_panic {α β : Type} (f : α → β) {o : Outcome α} (h : o ≠ .panic) :
     o.map f ≠ .panic := by
@@ -50,7 +53,11 @@ theorem buildScalar_noPanic (e : Engine) (h : e.NoPanicFlags) (lvl : Level) (nul
     · exact buildKinded_noPanic e h nul d ms
     · split
       · split
-        · exact buildPrefixNoDelim_noPanic e h nul _ ms
+        · split
+          · split
+            · simp
+            · exact buildPrefix_noPanic e h nul _ _ ms
+          · exact buildPrefixNoDelim_noPanic e h nul _ ms
         · split
           · simp
           · exact buildPrefix_noPanic e h nul _ _ ms
@@ -176,7 +183,7 @@ theorem build_noPanic (e : Engine) (h : e.NoPanicFlags) (lvl : Level) (ty : Ty) 
       · split <;> simp
       · simp
   | .map es => by
-    unfold build
+    rw [build_map_off e h.node]
     split
     · simp
     · next hq =>
@@ -201,7 +208,7 @@ theorem buildList_noPanic (e : Engine) (h : e.NoPanicFlags) (lvl : Level) (ety :
     (acc : List TL) : (xs : DMs) → buildList e lvl ety enul acc xs ≠ .panic
   | .nil => by simp [buildList]
   | .cons x xs => by
-    unfold buildList
+    rw [buildList_cons_off e h.node]
     split
     · exact buildList_noPanic e h lvl ety enul _ xs
     · simp
@@ -210,7 +217,7 @@ theorem buildMap_noPanic (e : Engine) (h : e.NoPanicFlags) (lvl : Level) (vty : 
     (acc : List (Bytes × TL)) : (es : DMKVs) → buildMap e lvl vty vnul acc es ≠ .panic
   | .nil => by simp [buildMap]
   | .cons k v es => by
-    unfold buildMap
+    rw [buildMap_cons_nodeOff e h.node]
     split
     · simp
     · split
@@ -221,7 +228,7 @@ theorem buildStruct_noPanic (e : Engine) (h : e.NoPanicFlags) (lvl : Level) (fs 
     (st : SSt) : (es : DMKVs) → buildStruct e lvl fs st es ≠ .panic
   | .nil => by unfold buildStruct; exact SSt.finish_ne_panic fs st
   | .cons k v es => by
-    unfold buildStruct
+    rw [buildStruct_cons_off e h.node]
     split
     · simp
     · split
@@ -232,9 +239,13 @@ theorem buildStruct_noPanic (e : Engine) (h : e.NoPanicFlags) (lvl : Level) (fs 
         · next hq => exact absurd hq (build_noPanic e h lvl _ _ _ v)
 theorem buildTuple_noPanic (e : Engine) (h : e.NoPanicFlags) (fs : List Field)
     (st : SSt) (i : Nat) : (xs : DMs) → buildTuple e fs st i xs ≠ .panic
-  | .nil => by unfold buildTuple; exact SSt.finish_ne_panic fs st
-  | .cons x xs => by
+  | .nil => by
     unfold buildTuple
+    split
+    · simp [SSt.finishZero]
+    · exact SSt.finish_ne_panic fs st
+  | .cons x xs => by
+    rw [buildTuple_cons_off e h.node]
     split
     · simp
     · split
